@@ -15,7 +15,8 @@ EXTENDS Integers, Sequences, FiniteSets, TLC
 LOCAL INSTANCE Bitwise
 
 Bg(a) == (a * 7 + 3) % 256
-Rd8(s, a)  == LET x == a % 65536 IN IF x \in DOMAIN s.set THEN s.set[x] ELSE Bg(x)
+\* a state with a field `zero` has an all-zero background (a freshly loaded naken_util), otherwise Bg
+Rd8(s, a)  == LET x == a % 65536 IN IF x \in DOMAIN s.set THEN s.set[x] ELSE IF "zero" \in DOMAIN s THEN 0 ELSE Bg(x)
 Rd16(s, a) == LET e == (a % 65536) - ((a % 65536) % 2) IN Rd8(s, e) + 256 * Rd8(s, e + 1)   \* word access ignores bit 0
 Wr8(s, a, v)  == [s EXCEPT !.set = ((a % 65536) :> (v % 256)) @@ @]
 Wr16(s, a, v) == LET e == (a % 65536) - ((a % 65536) % 2) IN
@@ -174,6 +175,56 @@ Step(s) ==
         LET r == OneOp(s1, (w \div 128) % 8, (w \div 16) % 4, (w \div 64) % 2, w % 16)
         IN [st |-> r.st, any |-> r.any, ill |-> r.ill]
      ELSE [st |-> s, any |-> {}, ill |-> TRUE]
+
+
+-----------------------------------------------------------------------------
+(* Running a routine (second half of C14).  Cycle counts: SLAU144 tables   *)
+(* 3-14 (interrupt/reset excluded), 3-15 (format II) and 3-16 (format I);  *)
+(* a constant-generator source counts as a register source.                *)
+SrcClass(r, as) == IF r = 3 \/ (r = 2 /\ as \in {2, 3}) \/ as = 0 THEN "reg"
+                   ELSE IF as = 1 THEN "idx" ELSE IF as = 2 THEN "ind" ELSE "inc"      \* #N is @PC+
+CyclesTwo(sreg, as, ad, dreg) ==
+  LET sc == SrcClass(sreg, as) IN
+  IF ad = 1 THEN (CASE sc = "reg" -> 4 [] sc = "ind" -> 5 [] sc = "inc" -> 5 [] sc = "idx" -> 6)
+  ELSE IF dreg = 0 THEN (CASE sc = "reg" -> 2 [] sc = "ind" -> 2 [] sc = "inc" -> 3 [] sc = "idx" -> 3)
+  ELSE (CASE sc = "reg" -> 1 [] sc = "ind" -> 2 [] sc = "inc" -> 2 [] sc = "idx" -> 3)
+CyclesOne(op, r, as) ==
+  LET sc == SrcClass(r, as) IN
+  IF op = 6 THEN 5                                                                    \* reti
+  ELSE IF op = 4 THEN (CASE sc = "reg" -> 3 [] sc = "ind" -> 4 [] sc = "inc" -> (IF r = 0 THEN 4 ELSE 5) [] sc = "idx" -> 5)   \* push
+  ELSE IF op = 5 THEN (CASE sc = "reg" -> 4 [] sc = "ind" -> 4 [] sc = "inc" -> 5 [] sc = "idx" -> 5)   \* call
+  ELSE (CASE sc = "reg" -> 1 [] sc = "ind" -> 3 [] sc = "inc" -> 3 [] sc = "idx" -> 4)
+Cycles(s) ==
+  LET w == Rd16(s, Reg(s, 0)) top == w \div 4096 IN
+  IF top >= 4 THEN CyclesTwo((w \div 256) % 16, (w \div 16) % 4, (w \div 128) % 2, w % 16)
+  ELSE IF top \in {2, 3} THEN 2
+  ELSE CyclesOne((w \div 128) % 8, w % 16, (w \div 16) % 4)
+
+IsCall(s) == LET w == Rd16(s, Reg(s, 0)) IN w \div 128 = 37              \* 0x1280..0x12ff
+IsRet(s)  == Rd16(s, Reg(s, 0)) = 16688                                   \* 0x4130  mov @SP+, PC
+
+\* run from s until the ret that leaves the routine (more rets than calls), a write to the byte address bio
+\* (-1: none) or an instruction outside the core set; at most `fuel` instructions
+\* does the instruction at PC store to byte address b (whatever the value)?  Only mov/add.. with an
+\* absolute or indexed destination are used for this in the generated routines: the destination address
+WritesTo(s, b) ==
+  LET w == Rd16(s, Reg(s, 0)) top == w \div 4096
+      s1 == SetReg(s, 0, Reg(s, 0) + 2) IN
+  top >= 4 /\ (w \div 128) % 2 = 1 /\ top \notin {9, 11}
+  /\ LET so == Src(s1, (w \div 256) % 16, (w \div 16) % 4, (w \div 64) % 2)
+         dd == Dst(so.s, w % 16, 1, (w \div 64) % 2) IN
+     dd.ea = b \/ ((w \div 64) % 2 = 0 /\ dd.ea + 1 = b)
+RECURSIVE RunFrom(_, _, _, _, _)
+RunFrom(s, depth, cyc, bio, fuel) ==
+  IF fuel = 0 THEN [end |-> "fuel", st |-> s, cycles |-> cyc, exit |-> 0]
+  ELSE LET r == Step(s)
+           c2 == cyc + Cycles(s)
+           d2 == depth + (IF IsCall(s) THEN 1 ELSE IF IsRet(s) THEN -1 ELSE 0) IN
+    IF r.ill \/ r.any # {} THEN [end |-> "unsettled", st |-> s, cycles |-> cyc, exit |-> 0]
+    ELSE IF bio >= 0 /\ bio \in DOMAIN r.st.set /\ (bio \notin DOMAIN s.set \/ r.st.set[bio] # s.set[bio] \/ WritesTo(s, bio))
+      THEN [end |-> "break_io", st |-> r.st, cycles |-> c2, exit |-> r.st.set[bio]]
+    ELSE IF d2 < 0 THEN [end |-> "ret", st |-> r.st, cycles |-> c2, exit |-> 0]
+    ELSE RunFrom(r.st, d2, c2, bio, fuel - 1)
 
 -----------------------------------------------------------------------------
 (* Conformance of one observed step.                                        *)
